@@ -2859,10 +2859,11 @@ class PGPKeyring(collections_abc.Container, collections_abc.Iterable, collection
         :raises: :py:exc:`KeyError` if there is no loaded key that satisfies the identifier.
         """
         if isinstance(identifier, PGPMessage):
-            for issuer in identifier.issuers:
-                if issuer in self:
-                    identifier = issuer
-                    break
+            # of the issuers / recipients that are loaded, one whose private half is loaded comes first:
+            # that is the key that can decrypt the message
+            for issuer in sorted((i for i in identifier.issuers if i in self), key=lambda i: self._get_key(i).is_public):
+                identifier = issuer
+                break
 
         if isinstance(identifier, PGPSignature):
             identifier = identifier.signer
